@@ -8,6 +8,8 @@ def jobs(tier, seed):
     J = []
     J += reinit_jobs(tier)
     J += waitempty_jobs(tier)
+    J += notify_jobs(tier)
+    J += lockheld_jobs(tier)
     return J
 
 def reinit_jobs(tier):
@@ -47,14 +49,114 @@ def waitempty_jobs(tier):
                   bound="ares_queue_wait_empty(timeout_ms < 0, every negative int) on a queue of 0..2 requests (length behind the ares_llist API); "
                         "other threads set the queue to any length 0..2 whenever the mutex is not held; up to %d wake-ups "
                         "(each from an arbitrary queue state, spurious ones included)" % mw))
-    J.append(dict(common, name="c11_waitempty_timed", defines=["-DOP=0", "-DTMO_CLASS=1", "-DMAXWAITS=%d" % mw],
+    J.append(dict(common, backend="z3", name="c11_waitempty_timed", defines=["-DOP=0", "-DTMO_CLASS=1", "-DMAXWAITS=%d" % mw],
                   unwindset=["ares_queue_wait_empty.0:%d" % (mw + 2)], kf_group="c11_waitempty_timed",
                   witnesses=["end", "success", "success after waiting", "success after a spurious or refilled wake-up",
                              "timeout decided by the clock", "timeout reported by the timed wait"],
                   bound="ares_queue_wait_empty(timeout_ms in 0..INT_MAX, all values) with a virtual monotonic clock (start "
                         "0..2^40 s, any microsecond; up to 3 s between two clock reads; a timed wait lasts up to its timeout + "
                         "5 ms); queue 0..2 requests changed arbitrarily while the mutex is not held; up to %d wake-ups" % mw))
+    J.append(dict(name="c11_timeval_remaining", harness="timeval_remaining.c", defines=["-DUNNORM=0"], backend="cadical", mem_gb=4,
+                  timeout=240, unwind=2, native=False, real=["src/lib/ares_timeout.c"], support=["vp_rt.c"],
+                  witnesses=["end", "expired", "time remains", "borrow"],
+                  bound="ares_timeval_remaining for all normalised now/tout with seconds in 0..2^41"))
+    J.append(dict(name="c11_timeval_remaining_unnorm", harness="timeval_remaining.c", defines=["-DUNNORM=1"], backend="z3",
+                  mem_gb=4, timeout=240, unwind=2, native=False, real=["src/lib/ares_timeout.c"], support=["vp_rt.c"],
+                  witnesses=["end", "an unnormalised deadline is called expired although time remains", "more than 999 ms are lost"],
+                  bound="witness only: a deadline with usec in 1000000..1999999 is reported expired while up to 999.999 ms remain"))
     J.append(dict(common, name="c11_notify_empty", defines=["-DOP=1"], witnesses=["end", "broadcast", "no broadcast"],
                   bound="ares_queue_notify_empty on a queue of 0..2 requests, and on a NULL channel"))
     J.append(dict(common, name="c11_waitempty_null", defines=["-DOP=2"], bound="ares_queue_wait_empty(NULL, any timeout)"))
+    return J
+
+def notify_jobs(tier):
+    J = []
+    for entry, nm in ((0, "cancel"), (1, "endquery")):
+        J.append(dict(name="c11_notify_callers_%s" % nm, harness="notify_callers.c", defines=["-DENTRY=%d" % entry, "-DNQ=2"],
+                      real=["src/lib/ares_library_init.c", "src/lib/ares_cancel.c", "src/lib/dsa/ares_llist.c"],
+                      support=["vp_rt.c", "valloc.c", "memloops.c", "slist_ref.c", "szvp_ref.c", "dnsrec_abs.c"],
+                      unwind=6, backend="cadical", mem_gb=6, timeout=240,
+                      witnesses=["end", "queue became empty", "queue not empty at return", "callback started a new request"] +
+                                (["callback re-entered ares_cancel"] if entry == 0 else []),
+                      bound="real %s on 2 live requests in arbitrary link state; callbacks may start a request or re-enter "
+                            "ares_cancel (depth 1)" % ("ares_cancel" if entry == 0 else "end_query (any request, any status)")))
+    return J
+
+# ---- c11_lockheld: one job per public entry point -------------------------------------------------------------------
+# TU -> (macro, functions of that TU whose bodies are replaced by lh_stubs.c)
+LH_TU = {
+    "src/lib/ares_send.c": ("send", ["ares_send_nolock"]),
+    "src/lib/ares_query.c": ("query", []),
+    "src/lib/ares_search.c": ("search", ["ares_search_int"]),
+    "src/lib/ares_process.c": ("process", ["ares_process_fds_nolock", "handle_conn_error"]),
+    "src/lib/ares_timeout.c": ("timeout", []),
+    "src/lib/legacy/ares_fds.c": ("fds", []),
+    "src/lib/legacy/ares_getsock.c": ("getsock", []),
+    "src/lib/ares_getaddrinfo.c": ("getaddrinfo", ["ares_getaddrinfo_int"]),
+    "src/lib/ares_gethostbyname.c": ("gethostbyname", ["ares_gethostbyname_file_int"]),
+    "src/lib/ares_gethostbyaddr.c": ("gethostbyaddr", ["ares_gethostbyaddr_nolock"]),
+    "src/lib/ares_getnameinfo.c": ("getnameinfo", ["lookup_service", "append_scopeid"]),
+    "src/lib/ares_update_servers.c": ("update_servers", ["ares_servers_update", "ares_sconfig_append_fromstr", "ares_get_server_addr",
+                                                         "ares_addr_node_to_sconfig_llist", "ares_addrpnode_to_sconfig_llist"]),
+    "src/lib/ares_init.c": ("init", ["ares_init_options"]),
+    "src/lib/ares_options.c": ("options", []),
+    "src/lib/ares_socket.c": ("socket", []),
+    "src/lib/ares_set_socket_functions.c": ("sockfuncs", []),
+}
+# entry point, TU, finding expected on the pinned tree (None = must hold), required witnesses besides "end"
+LH_EP = [
+    ("ares_send_dnsrec", "src/lib/ares_send.c", None, ["lock taken", "worker reached", "callback invoked", "failure status"]),
+    ("ares_send", "src/lib/ares_send.c", None, ["lock taken", "worker reached", "callback invoked"]),
+    ("ares_queue_active_queries", "src/lib/ares_send.c", None, ["lock taken", "worker reached"]),
+    ("ares_query_dnsrec", "src/lib/ares_query.c", None, ["lock taken", "worker reached", "callback invoked", "failure status"]),
+    ("ares_query", "src/lib/ares_query.c", None, ["lock taken", "worker reached", "callback invoked"]),
+    ("ares_search_dnsrec", "src/lib/ares_search.c", None, ["lock taken", "worker reached", "callback invoked", "failure status"]),
+    ("ares_search", "src/lib/ares_search.c", "unlocked_config_reads", ["lock taken", "worker reached", "callback invoked"]),
+    ("ares_process_fds", "src/lib/ares_process.c", None, ["lock taken", "worker reached", "failure status"]),
+    ("ares_process_fd", "src/lib/ares_process.c", None, ["lock taken", "worker reached"]),
+    ("ares_process", "src/lib/ares_process.c", None, ["lock taken", "worker reached"]),
+    ("ares_process_pending_write", "src/lib/ares_process.c", None, ["lock taken", "worker reached"]),
+    ("ares_timeout", "src/lib/ares_timeout.c", None, ["lock taken", "worker reached"]),
+    ("ares_fds", "src/lib/legacy/ares_fds.c", None, ["lock taken", "worker reached"]),
+    ("ares_getsock", "src/lib/legacy/ares_getsock.c", None, ["lock taken", "worker reached"]),
+    ("ares_getaddrinfo", "src/lib/ares_getaddrinfo.c", None, ["lock taken", "worker reached", "callback invoked"]),
+    ("ares_gethostbyname", "src/lib/ares_gethostbyname.c", None, ["lock taken", "worker reached", "callback invoked"]),
+    ("ares_gethostbyname_file", "src/lib/ares_gethostbyname.c", None, ["lock taken", "worker reached"]),
+    ("ares_gethostbyaddr", "src/lib/ares_gethostbyaddr.c", None, ["lock taken", "worker reached", "callback invoked"]),
+    ("ares_getnameinfo", "src/lib/ares_getnameinfo.c", None, ["lock taken", "worker reached", "callback invoked"]),
+    ("ares_set_servers", "src/lib/ares_update_servers.c", None, ["lock taken", "worker reached", "failure status"]),
+    ("ares_set_servers_ports", "src/lib/ares_update_servers.c", None, ["lock taken", "worker reached", "failure status"]),
+    ("ares_set_servers_csv", "src/lib/ares_update_servers.c", "unlocked_config_reads", ["lock taken", "worker reached", "failure status"]),
+    ("ares_set_servers_ports_csv", "src/lib/ares_update_servers.c", "unlocked_config_reads", ["lock taken", "worker reached", "failure status"]),
+    ("ares_get_servers", "src/lib/ares_update_servers.c", None, ["lock taken", "worker reached", "failure status"]),
+    ("ares_get_servers_ports", "src/lib/ares_update_servers.c", None, ["lock taken", "worker reached", "failure status"]),
+    ("ares_get_servers_csv", "src/lib/ares_update_servers.c", None, ["lock taken", "worker reached"]),
+    ("ares_set_server_state_callback", "src/lib/ares_update_servers.c", "setters_unlocked", []),
+    ("ares_set_sortlist", "src/lib/ares_init.c", None, ["lock taken", "failure status"]),
+    ("ares_set_local_ip4", "src/lib/ares_init.c", None, ["lock taken"]),
+    ("ares_set_local_ip6", "src/lib/ares_init.c", None, ["lock taken"]),
+    ("ares_set_local_dev", "src/lib/ares_init.c", None, ["lock taken"]),
+    ("ares_dup", "src/lib/ares_init.c", None, ["lock taken", "worker reached", "failure status"]),
+    ("ares_save_options", "src/lib/ares_options.c", "save_options_unlocked", []),
+    ("ares_set_socket_callback", "src/lib/ares_socket.c", "setters_unlocked", []),
+    ("ares_set_socket_configure_callback", "src/lib/ares_socket.c", "setters_unlocked", []),
+    ("ares_set_pending_write_cb", "src/lib/ares_socket.c", "setters_unlocked", []),
+    ("ares_set_socket_functions", "src/lib/ares_set_socket_functions.c", "setters_unlocked", []),
+    ("ares_set_socket_functions_ex", "src/lib/ares_set_socket_functions.c", "setters_unlocked", []),
+]
+
+def lockheld_jobs(tier):
+    J = []
+    for ep, tu, finding, wit in LH_EP:
+        macro, repl = LH_TU[tu]
+        defs = ["-DEP_%s" % ep, "-DTU_%s" % macro]
+        if finding:
+            defs.append("-DEXPECT_%s" % finding)
+        J.append(dict(name="c11_lockheld_%s" % ep, harness="lockheld.c", defines=defs, real=[tu], support=["vp_rt.c"],
+                      replace=repl + ["LH_never_defined"], replace_with=["lh_stubs.c"], unwind=4, backend="cadical", mem_gb=4,
+                      timeout=240, native=False, kf_group=("c11_lockheld_" + finding) if finding else None,
+                      unwindset=["chan_equal.0:33", "chan_equal.1:17", "ares_strcpy.0:33", "strlen.0:40", "memcpy.0:40", "memset.0:600"],
+                      witnesses=["end"] + wit,
+                      bound="real %s() from %s; all callees that touch shared state are lock-asserting stubs returning any "
+                            "status; world: 0..2 servers x 0..2 connections, 0..2 outstanding requests" % (ep, tu)))
     return J
